@@ -2,12 +2,24 @@
 """Regenerate /verif/MANIFEST.json from the table below (single source of truth)."""
 import json, os
 HERE = os.path.dirname(os.path.dirname(os.path.abspath(__file__)))
-BASE_OFF = ("cd /repo && env -u T4_GEOM_CONVERT_VERIF /venv/bin/python -m pytest -ra -q -p no:cacheprovider "
-            "--timeout=900 --continue-on-collection-errors")
+BASE_OFF = ("cd /repo && rm -rf .hypothesis && env -u T4_GEOM_CONVERT_VERIF /venv/bin/python -m pytest -ra -q "
+            "-p no:cacheprovider --timeout=900 --continue-on-collection-errors")
 TRUST = ("TLC; the reading of MCNP/TRIPOLI-4 semantics written down in DESIGN.md section 4; the PEG parser shim "
          "(harness/vt4/shim.py) standing in for TatSu; the .t4 tokenizer and numeric SURF evaluator "
          "(harness/vt4/t4file.py); the concretiser that spells abstract decks as MCNP text")
 CHECKS = {
+ 'C06': dict(cat='model_checking', ref='6/C06',
+   text=("GenLat.tla builds LAT=1 unit cells from base vectors (1-3 D, orthogonal and skew, any orientation, either plane of "
+         "a pair listed first, planes optionally written with negated coefficients), ranges (negative, degenerate), fill "
+         "arrays over {0, own universe, u2, u3} or FILL=n with --lattice, lattice and container transformations; TLC checks the "
+         "declarative base-vector conditions (LatticeVecsOK) on every deck and TraceDeck.tla locates each probe point through "
+         "McnpSem.Locate's element lookup and compares owner, provenance (consistent element keys) and composition."),
+   technique='TLA+ spec of lattice element lookup (McnpSem.Locate, GenLat.LatticeVecsOK) checked by TLC against conversions of TLC-generated lattice decks'),
+ 'C07': dict(cat='model_checking', ref='6/C07',
+   text=("GenHex.tla builds LAT=2 unit cells from integer parallelogon hexagons (incl. the irregular hexagon of the "
+         "converter's docstring) in five orientations with 6 or 8 planes, the pairs listed in any order and either plane "
+         "first, and states MCNP's index convention declaratively (HexVecsOK, checked by TLC on every deck); validation as C06."),
+   technique='TLA+ spec of the hexagonal index convention (GenHex.HexVecsOK, McnpSem.Locate) checked by TLC against conversions of TLC-generated decks'),
  'C05': dict(cat='model_checking', ref='6/C05',
    text=("GenUniv.tla behaviours (nesting to depth 3, one universe reused in two containers, FILL transformations by "
          "number/inline/starred/3-entry incl. the explicit null translation, FILL without transformation following the "
